@@ -205,3 +205,34 @@ Theorem C10_reorder_interdiffusivity keys (D : list (list R)) i j :
   mget Rops (reorder_mat Rops keys D) i j = mget Rops D (rank keys i) (rank keys j).
 Proof. exact (reorder_mat_entry Rops keys D i j). Qed.
 Print Assumptions C10_reorder_interdiffusivity.
+
+(* ---- array form of getInterdiffusivity / getTracerDiffusivity -------------------------------------------- *)
+(* [single] = the single-point routine, whatever it computes (local equilibrium is an oracle).  The value
+   returned for point i of an array call is the single-point value AT THAT POINT - for paired arrays, for one
+   composition with many temperatures and for many compositions with one temperature *)
+Theorem C10_array_pointwise {A B C : Type} (single : A -> B -> C) xs Ts i x t :
+  length xs = length Ts -> nth_error xs i = Some x -> nth_error Ts i = Some t ->
+  exists l, array_query single xs Ts = Some l /\ length l = length xs /\ nth_error l i = Some (single x t).
+Proof. exact (array_query_paired single xs Ts i x t). Qed.
+Print Assumptions C10_array_pointwise.
+
+Theorem C10_array_one_composition {A B C : Type} (single : A -> B -> C) x Ts i t :
+  length Ts <> 1%nat -> nth_error Ts i = Some t ->
+  exists l, array_query single [x] Ts = Some l /\ length l = length Ts /\ nth_error l i = Some (single x t).
+Proof. exact (array_query_one_x single x Ts i t). Qed.
+Print Assumptions C10_array_one_composition.
+
+Theorem C10_array_one_temperature {A B C : Type} (single : A -> B -> C) xs t i x :
+  length xs <> 1%nat -> nth_error xs i = Some x ->
+  exists l, array_query single xs [t] = Some l /\ length l = length xs /\ nth_error l i = Some (single x t).
+Proof. exact (array_query_one_T single xs t i x). Qed.
+Print Assumptions C10_array_one_temperature.
+
+(* an entry never depends on the neighbouring points of the array it was asked in *)
+Theorem C10_array_entry_local {A B C : Type} (single : A -> B -> C) xs Ts xs' Ts' i j x t l l' :
+  length xs = length Ts -> length xs' = length Ts' ->
+  nth_error xs i = Some x -> nth_error Ts i = Some t -> nth_error xs' j = Some x -> nth_error Ts' j = Some t ->
+  array_query single xs Ts = Some l -> array_query single xs' Ts' = Some l' ->
+  nth_error l i = nth_error l' j.
+Proof. exact (array_query_local single xs Ts xs' Ts' i j x t l l'). Qed.
+Print Assumptions C10_array_entry_local.
